@@ -94,6 +94,39 @@ Definition class_default_args (t : cty) (j : val) : list (val * val) :=
 
 Definition top_fill (t : cty) : fill := if is_dc_direct t then FAll else FNo.
 
+(* ---- the container grammar for which per-leaf stability is PROVED (Proofs/C01Proofs.v leaf_stable_simple) ----------- *)
+(* str / int / float / bool, List[T], Dict[str, T], Tuple[T1, ..], Tuple[T, ...] nested at will, and Optional[T] for T one of
+   these other than str (an Optional[str] value such as 'null' is where the loader oracle decides) *)
+Fixpoint simple_ty (t : cty) : bool :=
+  match t with
+  | CStr | CInt | CFloat | CBool => true
+  | CList t1 | CTupleVar t1 | CDict false t1 => simple_ty t1
+  | CTuple ts => forallb simple_ty ts
+  | CUnion [t1; CNone] => match t1 with CStr | CNone | CUnion _ => false | _ => simple_ty t1 end
+  | _ => false
+  end.
+
+(* the values the parser hands out for such a type (the judge checks this of every observed configuration) *)
+Fixpoint wt (t : cty) (w : val) {struct t} : bool :=
+  match t, w with
+  | CStr, VStr _ | CInt, VInt _ | CFloat, VFloat _ | CBool, VBool _ => true
+  | CList t1, VList l => forallb (wt t1) l
+  | CTupleVar t1, VTuple l => forallb (wt t1) l
+  | CDict false t1, VDict d => forallb (fun kv => is_str (fst kv) && wt t1 (snd kv)) d
+  | CTuple ts, VTuple l =>
+      (fix go (ts : list cty) (l : list val) : bool :=
+         match ts, l with
+         | [], [] => true
+         | t1 :: ts', x :: l' => wt t1 x && go ts' l'
+         | _, _ => false
+         end) ts l
+  | CUnion [t1; CNone], _ => is_vnone w || wt t1 w
+  | _, _ => false
+  end.
+
+Definition leaf_simple (lw : leaf * val) : bool :=
+  simple_ty (lf_ty (fst lw)) && (is_vnone (snd lw) || wt (lf_ty (fst lw)) (snd lw)).
+
 Section Guard.
 Variable yl : str -> option val.
 
@@ -183,6 +216,22 @@ Fixpoint case_class (vr : variant) (lvs : list (leaf * val)) : N :=
       else if N.eqb k 11 then (let k' := case_class vr r in if N.eqb k' 0 then k else k')
       else k
   end.
+
+(* 13 = skip-default-subcommand-crash : dump(skip_default=True) / --print_config=skip_default before the subcommand, taken by
+   a parser with a required subcommand, raises (see dump_crashes) *)
+Fixpoint case_class_sub (sub : option str) (vr : variant) (lvs : list (leaf * val)) : N :=
+  match lvs with
+  | [] => 0%N
+  | lw :: r =>
+      let k := leaf_class (leaf_var sub vr (fst lw)) lw in
+      if N.eqb k 0 then case_class_sub sub vr r
+      else if N.eqb k 11 then (let k' := case_class_sub sub vr r in if N.eqb k' 0 then k else k')
+      else k
+  end.
+
+(* 14 = empty-subcommand-not-reselected : the dump holds no option of the chosen subcommand (see sub_emptied) *)
+Definition top_class (req_sub : bool) (sub : option str) (vr : variant) (lvs : list (leaf * val)) : N :=
+  if dump_crashes req_sub vr then 13%N else if sub_emptied yl sub vr lvs then 14%N else case_class_sub sub vr lvs.
 
 End Guard.
 
